@@ -50,6 +50,10 @@ CLAIMS = {
    text="Theorems on the loader model: whatever an import attempt does - succeed, fail with any error at any depth of the import graph - afterwards the set of libraries being imported is exactly what it was before, and root frame, program directory and import phase are untouched (mutual induction over eval_import_set / get_library / eval_import / eval_library_definition); a cyclic import is reported exactly when the library is reached while it is being imported, otherwise the outcome is the outcome of loading it; a failed load is not cached; library files are looked up relative to the program's directory. Together: the outcome of an import does not depend on earlier attempts. Tied to the code by every digraph on 1 and 2 libraries (3 sampled in thorough) x every node kind (healthy, missing, faulting body, wrong name, syntactically broken, not UTF-8) x files and registered sources x histories of up to 3 attempts; outcomes compared model vs implementation and each attempt against the same import on a fresh interpreter.",
    note=COMMON_NOTE + "; termination is by fuel in the model: the bound 'number of libraries + 1 suffices' is not proved (every generated graph terminates on both sides); the file system is an oracle",
    technique="Coq proof (invariant by mutual fuel induction over the loader) + exhaustive small-graph differential correspondence with history-independence oracle"),
+ "C18": dict(
+   text="Theorems on the REPL model: the bracket test is a left fold, so it does not depend on how the text was cut into lines; parentheses inside string literals (with escapes), character literals, |quoted identifiers| and comments do not count; while a list is open a line is only appended (nothing is evaluated) and as soon as every list is closed exactly the accumulated text is evaluated and the buffer cleared; a submission spread over several lines is evaluated once as the lines joined by newlines; a session is the sequence of its submissions evaluated one after another on one interpreter (definitions persist). Tied to repl.rs by (a) check_bracket_closed through a cfg-guarded wrapper vs the model on EVERY string up to length 5 (quick) / 7 (thorough) over ( ) \" ; \\ # a newline | plus longer samples, (b) random texts through bracket test and reader (complete forms must be submitted), (c) random sessions fed to the built binary over a pipe under three line splittings: stdout bytes and number of error lines vs the model, and equality across splittings.",
+   note=COMMON_NOTE + "; rustyline over a pipe (observed: each line is delivered with its newline, so a string literal that spans lines gets a doubled newline in pipe mode - outside the claim, line breaks are only between tokens); the agreement of the bracket count with the reader's nesting depth is validated exhaustively on short strings, not proved; error messages are counted, not compared",
+   technique="Coq proof (fold lemmas for the bracket scanner, induction over the session) + exhaustive short-string sweep and piped-session correspondence with the built binary"),
  "C09": dict(
    text="Theorems (Coq, all operands, no size bound): an exact result of + - * / abs is the exact rational result in Q; division by exact zero is an error iff the divisor is zero; floor/ceiling are Qfloor/Qceiling; floor-quotient/remainder satisfy n = d*q + r with q = floor(n/d); operands below 2^15 always give exact results; every result is in normal form; an inexact operand or an unrepresentable exact result gives the binary32 operation on the converted operands. The model (Model/Num.v on Flocq binary32) is tied to src/values.rs by executing both on the complete numeric grid and seeded random operands on every run, compared bit for bit.",
    note="Flocq's four classical/real axioms (named in evidence); Rust f32 = IEEE binary32 (validated bit-for-bit each run); hand-written model tied by differential execution through the public Number API",
